@@ -176,8 +176,16 @@ def record(run):
     watched = []          # (name, object handed to the entry point, private copy taken before the call)
 
     def watch(name, obj):
-        watched.append((name, obj, obj.copy() if isinstance(obj, np.ndarray) else list(obj)))
+        watched.append((name, obj, obj.copy() if isinstance(obj, np.ndarray) else
+                        [np.array(v, copy=True) if isinstance(v, np.ndarray) else v for v in obj]))
         return obj
+
+    def unchanged(obj, cp):
+        if isinstance(obj, np.ndarray):
+            return np.array_equal(obj, cp)
+        return len(obj) == len(cp) and all(np.array_equal(a_, b_) for a_, b_ in zip(obj, cp))
+
+    shared = {}           # objects handed to BOTH executions of the run (the second one repeats the first)
 
     def call():
         del watched[:]
@@ -186,6 +194,12 @@ def record(run):
         if run.get("initXY"):          # initial centers that are not frames of the data (k-centers only)
             init = (np.array(run["initXY"], dtype="float64").reshape(len(run["initXY"]), -1) * scale).astype(dtn)
         if init is not None:
+            # half of the warm starts hand the centers over as a Python list of rows -- the SAME list object in the
+            # repeated execution, as a caller who keeps its seed centers around would
+            if (n + run["k"] + len(init)) % 2 == 0:
+                if "init" not in shared:
+                    shared["init"] = [row for row in init]
+                init = shared["init"]
             init = watch("init_centers", init)
         if algo == "kcenters":
             if form == "estimator":
@@ -257,8 +271,7 @@ def record(run):
                 # kcenters it is the returned result
                 pass
             same = bool(np.array_equal(X, X0) and X.dtype == X0.dtype)
-            changed = [nm for nm, obj, cp in watched
-                       if not (np.array_equal(obj, cp) if isinstance(obj, np.ndarray) else list(obj) == cp)]
+            changed = [nm for nm, obj, cp in watched if not unchanged(obj, cp)]
             if changed:
                 same = False
                 tr["inputs_changed"] = changed
